@@ -10,6 +10,7 @@ from __future__ import annotations
 
 import json
 import os
+import signal
 import subprocess
 import sys
 import tempfile
@@ -107,6 +108,19 @@ class Engine:
         self.round_log = []
         self.markers = []
         self.n_concretised = 0
+
+    # ------------------------------------------------------------- watchdog
+    def arm_watchdog(self):
+        """a path that does not return (e.g. a loop that never ends on a mutated tree) is cut when the
+        job deadline passes: SIGALRM raises PathAbort in this process"""
+        def on_alarm(signum, frame):
+            self.notes.append('budget-exhausted')
+            raise PathAbort('budget (watchdog)')
+        try:
+            signal.signal(signal.SIGALRM, on_alarm)
+            signal.setitimer(signal.ITIMER_REAL, max(1.0, self.deadline - time.time() + 2.0))
+        except (ValueError, OSError):
+            pass
 
     # ------------------------------------------------------------ variables
     def fresh(self, sort, prefix='t'):
@@ -452,6 +466,7 @@ class Engine:
         pid = os.fork()
         if pid == 0:
             self.is_child = True
+            self.arm_watchdog()
             self.depth += 1
             self.forks = 0
             self.nq = 0
